@@ -1,4 +1,5 @@
 import TexcraftModel.Lemmas.C12
+import TexcraftModel.Lemmas.C12Set
 
 /-!
 C12 — typesetting a paragraph conserves its content and honours the geometry.
@@ -398,6 +399,35 @@ theorem widths_option_fields (fs : List (List Nat)) (hne : fs ≠ [])
 
 example : widthFields (joinComma [[56, 48, 112, 116], [54, 48, 46, 53, 112, 116]]) =
     [[56, 48, 112, 116], [54, 48, 46, 53, 112, 116]] := by decide
+
+/-! ## Every line is set to its width -/
+
+/-- **Set width.** `post_line_break` packs every line with `HBox::pack(…, Exact(line width))`; the
+model of that call is property C15's `C15.hpack` (mapping: each node of the line becomes the
+`C15.Item` C15's harness decodes it to — char/ligature ↦ `char` with the font's dimensions,
+box/rule/glue/kern as themselves, penalty and discretionary ↦ `inert`; the totals the C12 harness
+sends to `lineSetVerdict` are `C15.loop`'s accumulators `natW`, `st`, `sh`). For every node list
+and every line width the box satisfies `lineSetVerdict`: its glue order is the highest order with
+a non-zero total and `nat·den + num·total = width·den` exactly — except in exactly the three
+excused shapes coded in `lineSetVerdict` (nothing to stretch, nothing to shrink, only finite
+shrink and it is exhausted). -/
+theorem lines_set_to_width (l : List C15.Item) (w : Int) :
+    lineSetVerdict (C15.loop {} l).natW w (totalsList (C15.loop {} l).st)
+      (totalsList (C15.loop {} l).sh) (C15.hpack l (.exact w)).order.toNat
+      (C15.hpack l (.exact w)).num (C15.hpack l (.exact w)).den = none :=
+  lineSet_setGlue (C15.loop {} l).h (C15.loop {} l).d (C15.loop {} l).natW w (C15.loop {} l).st
+    (C15.loop {} l).sh (C15.hpack l (.exact w)) rfl
+
+/-- The C12-r5-2 shape: a 100pt box with `minus 1fil` (infinite shrink, numerically smaller than
+the 10pt overflow) in a 90pt line is set at order fil with ratio −10 and meets the verdict; the
+box the seeded code produced (ratio −1 at order fil) does not. -/
+example :
+    let l : List C15.Item := [.box 0 6553600 0 0, .glue ⟨0, 0, .normal, 65536, .fil⟩]
+    (C15.hpack l (.exact 5898240)).order = .fil ∧ (C15.hpack l (.exact 5898240)).num = -655360 ∧
+    (C15.hpack l (.exact 5898240)).den = 65536 ∧
+    lineSetVerdict 6553600 5898240 [0, 0, 0, 0] [0, 65536, 0, 0] 1 (-655360) 65536 = none ∧
+    lineSetVerdict 6553600 5898240 [0, 0, 0, 0] [0, 65536, 0, 0] 1 (-65536) 65536 =
+      some "shrink-set-width" := by decide
 
 /-! ## Non-vacuity and the behaviour before the repairs -/
 
